@@ -2,13 +2,13 @@
 # usage: tools/runall.sh [tier] [seed...]   runs every check and prints one line per check
 tier=${1:-quick}; shift
 seeds=${@:-1}
-cd /verif
+cd "$(dirname "$(readlink -f "$0")")/.."
 for s in $seeds; do
   for id in C01 C02 C03 C04 C05 C06 C07 C08 C09 C10 C11 C12 C13 C14 C15 C16 C17 C18 C19; do
     t0=$(date +%s)
-    VERIF_SEED=$s ./check $id --tier $tier > /tmp/runall_$id.log 2>&1; rc=$?
+    VERIF_SEED=$s ./check $id --tier $tier > /tmp/runall_$$_$id.log 2>&1; rc=$?
     t1=$(date +%s)
-    echo "seed=$s $id rc=$rc $((t1-t0))s $(grep -c '^VIOLATION' /tmp/runall_$id.log) viol $(grep -c '^KNOWN-FINDING' /tmp/runall_$id.log) known | $(tail -1 /tmp/runall_$id.log | cut -c1-120)"
-    if [ $rc -ne 0 ]; then cp /tmp/runall_$id.log /tmp/runall_fail_${id}_seed$s.log; fi
+    echo "seed=$s $id rc=$rc $((t1-t0))s $(grep -c '^VIOLATION' /tmp/runall_$$_$id.log) viol $(grep -c '^KNOWN-FINDING' /tmp/runall_$$_$id.log) known | $(tail -1 /tmp/runall_$$_$id.log | cut -c1-120)"
+    if [ $rc -ne 0 ]; then cp /tmp/runall_$$_$id.log /tmp/runall_$$_fail_${id}_seed$s.log; fi
   done
 done
